@@ -599,14 +599,12 @@ def handleMore (op : String) (args : List String) (impl : Impl) : Option Ans :=
     let e ← parseEp? e; let w ← w.toInt?
     let base := if op == "next_midnight" || op == "next_noon" then e.next w else e.previous w
     let h : Int := if op == "next_noon" || op == "prev_noon" then 12 else 0
-    -- with_hms_strict: decompose → (sign, days) → compose(sign, days, h, 0, 0, 0, 0, 0)
-    let m : Option (Res Ep) := base.map (fun b => match Dur.decompose b.dur with
-      | .ok (sg, days, _, _, _, _, _, _) => (match Dur.compose sg days h 0 0 0 0 0 with
-          | .ok d => Res.ok (⟨d, b.ts⟩ : Ep) | .err => .err | .panic => .panic)
-      | .err => .err | .panic => .panic)
+    let m : Option (Res Ep) := base.map (fun b => match withHmsStrict b.dur h with
+      | .ok d => Res.ok (⟨d, b.ts⟩ : Ep) | .err => .err | .panic => .panic)
     let fits := convFits e TS.TAI && inRange (sval e.dur + 8 * nsPerDay) && inRange (sval e.dur - 8 * nsPerDay)
-    -- spec (epochs at or after their scale's reference): the day of next/previous, at 00:00 / 12:00 of the scale's own count
-    let sp := if !fits || sval e.dur < 8 * nsPerDay then noPanic impl else match impl, base with
+    -- spec: the day (of the scale's own count, floor division: also before the reference) that contains the
+    -- result of next/previous, at 00:00 / 12:00
+    let sp := if !fits then noPanic impl else match impl, base with
       | .ok [r], some b => (match parseEp? r with
           | some r => verdict [("scale", r.ts == e.ts), ("time_of_day", sval r.dur == (sval b.dur / nsPerDay) * nsPerDay + h * 3600000000000)]
           | none => "FAIL:decode")
